@@ -603,7 +603,7 @@ func main() {
 		guarded(r, c)
 		return
 	}
-	n := r.N(144, 2160)
+	n := r.N(288, 2160)
 	g0, f0 := len(goroutineKeys()), len(httpx.Fds())
 	cycles := 0
 	for i := 0; i < n; i++ {
